@@ -101,6 +101,26 @@ fn eval_pool(c: &crate::props::c17::FragPool) -> Outcome {
             return o;
         }
     }
+    // each muxer moved to another thread in the middle of its history (samples queued on one thread, flushed on another)
+    for (i, l) in lowered.iter().enumerate() {
+        if l.ops.is_empty() {
+            continue;
+        }
+        let cut = (c.schedule.get(i).copied().unwrap_or(3) as usize) % l.ops.len();
+        let run = run_frag_moved(&l.cfg, &l.ops, cut);
+        if let Some(p) = &run.panic {
+            o.aborted_by_panic = Some(p.clone());
+            o.fail("conserve", "conserve.panic_after_a_thread_change", format!("muxer {} panics when it is moved to another thread after {} of {} calls: {}", i, cut, l.ops.len(), p));
+            return o;
+        }
+        let mut oi = Outcome::default();
+        let _ = check_run(&mut oi, l, true, run);
+        if let Some(mut v) = oi.violations.into_iter().next() {
+            v.sig = format!("{}:moved_between_threads", v.sig);
+            o.violations.push(v);
+            return o;
+        }
+    }
     o.nontrivial = c.pool.len() >= 2 && c.schedule.len() >= 4 && segs >= 2;
     o
 }
